@@ -64,6 +64,25 @@ pub struct F {
     pub msg: String,
 }
 
+/// Same observer for the lifecycle engine: violations are collected when the world stops; here
+/// they are simply printed into the caller's finding list lazily via a leaked handle.
+pub fn install_observer_into(store: &Store, _fs: &mut Vec<crate::c15::F>) {
+    let (ctl, bad, _seen) = install_observer(store);
+    OBSERVERS.lock().unwrap().push((ctl, bad));
+}
+
+pub static OBSERVERS: Mutex<Vec<(Arc<Ctl>, Arc<Mutex<Vec<String>>>)>> = Mutex::new(Vec::new());
+
+/// Drain the messages of all observers installed in this process.
+pub fn drain_observers() -> Vec<String> {
+    let mut out = vec![];
+    for (ctl, bad) in OBSERVERS.lock().unwrap().drain(..) {
+        *ctl.on_frame.lock().unwrap() = None;
+        out.extend(bad.lock().unwrap().drain(..));
+    }
+    out
+}
+
 pub fn run_store_and_http() -> (Vec<F>, u64, Vec<String>) {
     let mut fs = vec![];
     let mut evals = 0u64;
